@@ -61,6 +61,14 @@ Reset == /\ l <= Len(Trace) /\ Trace[l].ev = "reset"
 SkipStep == /\ l <= Len(Trace) /\ Trace[l].ev = "step" /\ skip
             /\ l' = l + 1 /\ UNCHANGED <<cx, queries, snaps, cache, skip, done>>
 
+\* The flags a step left behind are read off the listing of the constant-true query (always
+\* query 1) by the freshly loaded searcher of the shard operated on.
+ListedLive(n, k) ==
+  IF n \notin DOMAIN snaps THEN {-1}
+  ELSE LET es == {i \in DOMAIN snaps[n] : snaps[n][i].at = k /\ snaps[n][i].q = 1 /\ ~snaps[n][i].skip}
+       IN IF es = {} \/ queries[1].k # "true" THEN {-1}
+          ELSE UNION {ToSet(snaps[n][i].repos) : i \in es}
+
 Step == /\ l <= Len(Trace) /\ Trace[l].ev = "step" /\ ~skip
         /\ LET e       == Trace[l]
                before  == cx.tomb[e.shard]
@@ -68,32 +76,32 @@ Step == /\ l <= Len(Trace) /\ Trace[l].ev = "step" /\ ~skip
                cDo     == [cx EXCEPT !.tomb[e.shard] = applied]      \* action Do
                cFail   == cx                                         \* action RenameFails
                ok      == e.reported = "ok"
-               \* the action the report selects
-               cSel    == IF ok THEN cDo ELSE cFail
+               cSel    == IF ok THEN cDo ELSE cFail                  \* the action the report selects
                cAlt    == IF ok THEN cFail ELSE cDo
-               wSel    == Judge(cSel, e.snap)
-               wAlt    == IF applied = before THEN wSel ELSE Judge(cAlt, e.snap)
+               seen    == ListedLive(e.snap, e.shard)
+               isSel   == seen = LiveOf(cSel, e.shard)
+               isAlt   == ~isSel /\ seen = LiveOf(cAlt, e.shard)
+               cNew    == IF isAlt THEN cAlt ELSE cSel
+               w       == Judge(cNew, e.snap)
                files   == (IF e.leftovers # 0 THEN {"leftover-files"} ELSE {})
-                          \cup (IF ok /\ ~e.sidecar THEN {"no-sidecar-after-ok"} ELSE {})
+                          \cup (IF ok /\ ~e.fault /\ ~e.sidecar THEN {"no-sidecar-after-ok"} ELSE {})
                opn     == ":" \o e.op
-           IN /\ cache' = Memo(cAlt, e.snap, wAlt) @@ Memo(cSel, e.snap, wSel)
+           IN /\ cache' = Memo(cNew, e.snap, w)
               /\ IF ~ok /\ ~e.fault
                  THEN Reject("spurious-error" \o opn, Expect(cDo)) /\ skip' = TRUE /\ cx' = cx
                  ELSE IF e.fault /\ e.injected = 0
                  THEN Reject("harness:no-injection", Expect(cSel)) /\ skip' = TRUE /\ cx' = cx
-                 ELSE IF wSel = {}
-                 THEN /\ cx' = cSel /\ skip' = (files # {})
-                      /\ RejectAll({x \o opn : x \in files}, Expect(cSel))
-                 ELSE IF applied # before /\ wAlt = {}
-                 THEN \* the observation is exactly the other action's: report and effect disagree
-                      /\ Reject((IF ok THEN "ok-without-effect" ELSE "error-with-effect") \o opn
-                                  \o (IF e.fault THEN ":rename-failed" ELSE ""), Expect(cSel))
-                      /\ RejectAll({x \o opn : x \in files}, Expect(cSel))
-                      /\ cx' = cAlt /\ skip' = FALSE
-                 ELSE /\ RejectAll(wSel, Expect(cSel))
+                 ELSE IF ~isSel /\ ~isAlt
+                 THEN \* neither action: the flags are not what any step of the specification leaves
+                      /\ Reject("flags" \o opn, Expect(cSel)) /\ skip' = TRUE /\ cx' = cx
+                 ELSE /\ cx' = cNew
+                      \* report and effect disagree (OkMeansEffect / ErrMeansNoChange)
+                      /\ (isAlt => Reject((IF ok THEN "ok-without-effect" ELSE "error-with-effect") \o opn
+                                            \o (IF e.fault THEN ":rename-failed" ELSE ""), Expect(cSel)))
+                      /\ RejectAll({x \o opn : x \in files}, Expect(cNew))
+                      /\ RejectAll(w, Expect(cNew))
                       \* leaks do not put the flags in doubt; anything else ends the scenario
-                      /\ skip' = (wSel \ LeakWhys # {})
-                      /\ cx' = cSel
+                      /\ skip' = (w \ LeakWhys # {} \/ files # {})
         /\ l' = l + 1 /\ UNCHANGED <<queries, snaps, done>>
 
 Done == l = Len(Trace) + 1 /\ ~done /\ done' = TRUE /\ PrintT(<<"ACCEPTED", l - 1>>)
